@@ -264,8 +264,8 @@ class FetchAttribute(Parseable[bytes]):
         elif specifier in (b'HEADER.FIELDS', b'HEADER.FIELDS.NOT'):
             params = params.copy(expected=[AString])
             header_list_p, buf = List.parse(after, params)
-            header_list = frozenset([bytes(hdr)
-                                     for hdr in header_list_p.value])
+            header_list = frozenset([hdr.value for hdr in
+                                     header_list_p.get_as(AString)])
             if not header_list:
                 raise NotParseable(after)
             return cls.Section(section_parts, specifier, header_list), buf
